@@ -225,6 +225,25 @@ func (f *faulter) disarm() int {
 	return f.hits
 }
 
+// the id of a RedisLock object: the string field called `id`, or - should it be renamed - THE string field that
+// does not hold the key
+func lockID(l *redis.RedisLock, key string) (string, bool) {
+	v := reflect.ValueOf(l).Elem()
+	if f := v.FieldByName("id"); f.IsValid() && f.Kind() == reflect.String {
+		return f.String(), true
+	}
+	var cands []string
+	for i := 0; i < v.NumField(); i++ {
+		if f := v.Field(i); f.Kind() == reflect.String && f.String() != key {
+			cands = append(cands, f.String())
+		}
+	}
+	if len(cands) == 1 {
+		return cands[0], true
+	}
+	return "", false
+}
+
 func runCase(c Case) (out Out) {
 	out = Out{ID: c.ID}
 	defer func() {
@@ -252,7 +271,12 @@ func runCase(c Case) (out Out) {
 	for i := range locks {
 		locks[i] = redis.NewRedisLock(store, c.Keys[c.InstKey[i]])
 		// the random id is private; it is case data for the model (read, never written)
-		out.IDs = append(out.IDs, reflect.ValueOf(locks[i]).Elem().FieldByName("id").String())
+		id, ok := lockID(locks[i], c.Keys[c.InstKey[i]])
+		if !ok {
+			out.Err = "cannot tell which field of RedisLock is the id"
+			return
+		}
+		out.IDs = append(out.IDs, id)
 	}
 	// kind: "" (Acquire/Release) | "ctx" (Background) | "ctx:live" (a request context, cancelled when the
 	// call has returned) | "ctx:cancelled" (already cancelled: the command is never sent) |
